@@ -132,8 +132,29 @@ class Effects:
         repo = self.repo
         for c in repo.classes.values():
             names = [b.split(".")[-1] for b in c.base_names]
-            if "NodeTransformer" in names or "NodeVisitor" in names:
+            if "NodeTransformer" in names:
                 self.transformer_classes.add(c.qualname)
+            elif "NodeVisitor" in names:
+                # the generic traversal of a NodeVisitor only reads; it changes the tree when one of its own methods
+                # writes into a node (anything but `self.<field> = ...`) or calls a mutator on a node's field
+                writes = False
+                for mi in c.methods.values():
+                    me = mi.all_params[0] if mi.all_params else "self"
+                    for n in ast.walk(mi.node):
+                        if isinstance(n, (ast.Attribute, ast.Subscript)) and isinstance(n.ctx, (ast.Store, ast.Del)):
+                            base = n
+                            while isinstance(base, (ast.Attribute, ast.Subscript)):
+                                base = base.value
+                            if not (isinstance(base, ast.Name) and base.id == me):
+                                writes = True
+                        if isinstance(n, ast.Call) and isinstance(n.func, ast.Attribute) and n.func.attr in ("append", "extend", "insert", "remove", "pop", "clear", "sort", "reverse", "update") :
+                            base = n.func.value
+                            while isinstance(base, (ast.Attribute, ast.Subscript)):
+                                base = base.value
+                            if not (isinstance(base, ast.Name) and base.id == me):
+                                writes = True
+                if writes:
+                    self.transformer_classes.add(c.qualname)
         changed = True
         while changed:
             changed = False
